@@ -1141,7 +1141,7 @@ extern uint64_t __vf_never;
 #define VF_DEP(c) (c)
 #endif
 #ifdef VF_REACH
-#define VF_REACH_SITE(id) __CPROVER_assert(0, "REACH:" #id)
+#define VF_REACH_SITE(id) __CPROVER_assert(VF_DEP(0), "REACH:" #id)
 #else
 #define VF_REACH_SITE(id) ((void)0)
 #endif
@@ -1376,7 +1376,7 @@ class Translator:
         out += bodies
         en = G.cname('@' + entry)
         out.append('void m_%s(void) {' % en)
-        out.append('  __vf_never = __VERIFIER_nondet_u64(); __CPROVER_assume(__vf_never == 0);')
+        out.append('  __vf_never = __VERIFIER_nondet_u64(); __CPROVER_assume((__vf_never & 1) == 0);')
         out.append('  __vf_init_globals();')
         out.append('  %s();' % en)
         out.append('  __CPROVER_assert(VF_DEP(!__unw), "ESCAPE: panic escaped the harness");')
